@@ -5,7 +5,8 @@ grammar describes, and prints those values.  Python composes further well-formed
 (all subsets of optional slots for messages with <= 6 optionals in thorough, singletons/pairs/full/random subsets otherwise,
 adversarial content fills, one true-maximum length per variable slot).  Stage C: each value is built reflectively as a real
 struct, encoded by the real encoder (PlainNasEncode and Encode<Msg>), decoded by the real decoder; TLC checks
-WellFormed(m), encode ok, decode ok, decoded = m field for field, and the spec's own round trip on the same value."""
+WellFormed(m), encode ok, decode ok, decoded = m field for field, and the spec's own round trip on the same value.
+Added after seeded rounds 3-5: header octets that routing ignores take every low-nibble value and the extremes; pairs of large elements that together exceed 64 KiB; structured contents (code + inner length) in the fills."""
 import itertools, json, os, sys
 sys.path.insert(0, os.path.dirname(os.path.abspath(__file__)))
 from codec_common import *
